@@ -519,6 +519,109 @@ func engCase(id int, rateStr string, workers, nports int) row {
 	return o
 }
 
+// ---------------------------------------------------------------- slow (real clock, rates of about one probe per second)
+
+// slowScanner records the start of every probe and cancels the scan as soon as probe number j
+// (0-based) starts earlier than (j-10)*p after the scan began: the outcome is then known.
+type slowScanner struct {
+	mu     sync.Mutex
+	t0     time.Time
+	p      time.Duration
+	starts []int64
+	cancel context.CancelFunc
+	hit    bool
+}
+
+func (s *slowScanner) Scan(ctx context.Context, r *scan.Request) (scan.Result, error) {
+	t := time.Since(s.t0)
+	s.mu.Lock()
+	j := int64(len(s.starts))
+	s.starts = append(s.starts, int64(t))
+	if !s.hit && t < time.Duration(j-10)*s.p {
+		s.hit = true
+		s.cancel()
+	}
+	s.mu.Unlock()
+	return nil, nil
+}
+
+// slowCase runs the application-scan engine (hook: parseRawOptions + newScanEngine) at a rate whose
+// per-second value is fractional, for at most capDur of wall time.
+func slowCase(id int, rateStr string, workers int, capDur time.Duration) row {
+	o := row{Kind: "slow", ID: id, Class: "slow", RateStr: rateStr, Workers: workers, RetOK: true}
+	cnt, win, err := command.VerifC15ParseRateLimit(rateStr)
+	if err != nil || cnt <= 0 {
+		o.Err = fmt.Sprint("parse: ", err)
+		return o
+	}
+	o.Rate, o.Per, o.ParseOK = int64(cnt), int64(win), true
+	ctx, cancel := context.WithCancel(context.Background())
+	defer cancel()
+	ss := &slowScanner{p: win / time.Duration(cnt), cancel: cancel}
+	engine, err := command.VerifC15NewGenericEngine(ctx, rateStr, workers, ss)
+	if err != nil {
+		o.Err = "engine: " + err.Error()
+		return o
+	}
+	_, subnet, _ := net.ParseCIDR("10.9.0.0/28")
+	rng := &scan.Range{DstSubnet: subnet, Ports: []*scan.PortRange{{StartPort: 1, EndPort: 16}}}
+	o.M = 256
+	go func() {
+		for range engine.Results() {
+		}
+	}()
+	ss.t0 = time.Now()
+	done, errc := engine.Start(ctx, rng)
+	go func() {
+		for range errc {
+		}
+	}()
+	select {
+	case <-done:
+		o.Class = "slow/finished"
+	case <-ctx.Done():
+		o.Class = "slow/stopped-early"
+	case <-time.After(capDur):
+		o.Class = "slow/deadline"
+	}
+	cancel()
+	ss.mu.Lock()
+	o.Starts = append([]int64(nil), ss.starts...)
+	ss.mu.Unlock()
+	sort.Slice(o.Starts, func(i, j int) bool { return o.Starts[i] < o.Starts[j] })
+	o.Scans = int64(len(o.Starts))
+	return o
+}
+
+var slowRates = []struct {
+	rate    string
+	workers int
+}{{"1/m", 1}, {"21/20s", 4}, {"41/20s", 1}, {"61/20s", 8}, {"1/15s", 2}, {"81/20s", 3}}
+
+func slowAll(out string, capDur time.Duration, only int) {
+	w := hlib.NewOut(out)
+	defer w.Close()
+	rows := make([]row, len(slowRates))
+	var wg sync.WaitGroup
+	for i, sr := range slowRates {
+		if only >= 0 && i != only {
+			continue
+		}
+		wg.Add(1)
+		go func(i int, rate string, workers int) {
+			defer wg.Done()
+			rows[i] = slowCase(i, rate, workers, capDur)
+		}(i, sr.rate, sr.workers)
+	}
+	wg.Wait()
+	for i := range rows {
+		if only >= 0 && i != only {
+			continue
+		}
+		w.Put(rows[i])
+	}
+}
+
 // ---------------------------------------------------------------- chunk boundary witness
 
 // chunkCase replays the witness of C15_chunked_scan_refuted on the real library: two limiters
@@ -562,7 +665,13 @@ func main() {
 	capIdle := flag.Duration("idle", 400*time.Millisecond, "capture mode: stop when no probe arrived for this long")
 	capTotal := flag.Duration("total", 30*time.Second, "capture mode: overall timeout")
 	capMatch := flag.String("match", "arp", "capture mode: arp | dstmac:<mac> | syn:<ip>")
+	slow := flag.Duration("slow", 0, "slow mode: run the fractional per-second rates for at most this long, then exit")
+	slowOnly := flag.Int("slowonly", -1, "slow mode: only this rate index")
 	flag.Parse()
+	if *slow > 0 {
+		slowAll(*out, *slow, *slowOnly)
+		return
+	}
 	if *capIface != "" {
 		capture(*out, *capIface, *capMatch, *capMax, *capIdle, *capTotal)
 		return
